@@ -598,6 +598,7 @@ type Atom struct {
 	TA, TB string // A and B with root variables replaced by their types (see Facts.T)
 	Neg    bool
 	Cond   ssa.Value
+	Val    ssa.Value // for a NIL atom made without a test in the code (a handed-on error): the value it speaks about
 }
 
 func (a Atom) String() string {
@@ -1046,6 +1047,7 @@ func (f *Facts) T(p string) string {
 
 type calleeSummary struct {
 	onSuccess, onFailure []Atom // typed atoms over the callee's parameter renderings
+	succAlts, failAlts   [][]Atom // the same before intersecting: one set per path of the callee with that outcome
 	paramRoot            []string
 	ambiguous            bool
 }
@@ -1064,14 +1066,31 @@ func (f *Facts) summaryOf(g *ssa.Function, depth int) *calleeSummary {
 		return s
 	}
 	seen := map[string]bool{}
+	untyped := false
 	for _, p := range g.Params {
 		f.path(p) // registers the root rendering
 		r := f.T(f.fnTok(p.Parent()) + "/" + p.Name())
 		if seen[r] {
-			s.ambiguous = true
+			// two parameters of one type (`isQueried(attr, queried *Attribute)`): rendered by type they are one; the
+			// summary is then kept over the parameters' own names
+			untyped = true
 		}
 		seen[r] = true
 		s.paramRoot = append(s.paramRoot, r)
+	}
+	if untyped {
+		s.paramRoot = nil
+		for _, p := range g.Params {
+			s.paramRoot = append(s.paramRoot, f.fnTok(p.Parent())+"/"+p.Name())
+		}
+		// (a name that is the prefix of another would be replaced inside it)
+		for i, a := range s.paramRoot {
+			for j, b := range s.paramRoot {
+				if i != j && strings.HasPrefix(b, a) {
+					s.ambiguous = true
+				}
+			}
+		}
 	}
 	res := g.Signature.Results()
 	if res.Len() == 0 {
@@ -1116,9 +1135,17 @@ func (f *Facts) summaryOf(g *ssa.Function, depth int) *calleeSummary {
 			} else if isFreshErrorV(rv) || nonNil {
 				fail = append(fail, ap.Atoms)
 			} else {
-				// unknown nil-ness: counts for both (weakens both summaries)
-				succ = append(succ, ap.Atoms)
-				fail = append(fail, ap.Atoms)
+				// unknown nil-ness (`return other(x)`, `return data, err`): the path reports success exactly when the
+				// value handed on is nil - each side gets that fact, expanded in turn
+				na := Atom{Op: "NIL", A: f.path(rv), Val: rv}
+				na.TA = f.T(na.A)
+				if na.A == "" {
+					succ = append(succ, ap.Atoms)
+					fail = append(fail, ap.Atoms)
+				} else {
+					succ = append(succ, append(append([]Atom(nil), ap.Atoms...), f.expandAtomsDepth([]Atom{na}, depth+1)...))
+					fail = append(fail, append(append([]Atom(nil), ap.Atoms...), f.expandAtomsDepth([]Atom{na.Not()}, depth+1)...))
+				}
 			}
 		case isBool:
 			if c, isC := rv.(*ssa.Const); isC && c.Value != nil {
@@ -1135,9 +1162,114 @@ func (f *Facts) summaryOf(g *ssa.Function, depth int) *calleeSummary {
 			}
 		}
 	}
+	if untyped {
+		for _, sets := range [][][]Atom{succ, fail} {
+			for _, set := range sets {
+				for i := range set {
+					set[i].TA, set[i].TB = set[i].A, set[i].B
+				}
+			}
+		}
+	}
 	s.onSuccess = intersectAtoms(succ)
 	s.onFailure = intersectAtoms(fail)
+	s.succAlts, s.failAlts = succ, fail
 	return s
+}
+
+// callOfAtom: the module call whose outcome the atom states (a nil test of its error, its boolean result, or the call
+// used as a condition), and whether the atom states the successful outcome.
+func (f *Facts) callOfAtom(a Atom) (call *ssa.Call, success bool) {
+	switch {
+	case a.Op == "NIL":
+		x, _, ok := nilTest(a.Cond)
+		if !ok {
+			if a.Val == nil {
+				return nil, false
+			}
+			x = a.Val
+		}
+		switch y := x.(type) {
+		case *ssa.Call:
+			call = y
+		case *ssa.Extract:
+			if c, isC := y.Tuple.(*ssa.Call); isC && y.Index == c.Call.Signature().Results().Len()-1 {
+				call = c
+			}
+		}
+		if call != nil && !isErrorTypeT(call.Call.Signature().Results().At(call.Call.Signature().Results().Len()-1).Type()) {
+			call = nil
+		}
+		success = !a.Neg
+	case a.Op == "TRUE":
+		if ex, isE := stripNot(a.Cond).(*ssa.Extract); isE {
+			if c, isC := ex.Tuple.(*ssa.Call); isC && ex.Index == c.Call.Signature().Results().Len()-1 && ex.Index > 0 {
+				if bt, isB := c.Call.Signature().Results().At(ex.Index).Type().Underlying().(*types.Basic); isB && bt.Kind() == types.Bool {
+					call = c
+					success = !a.Neg
+				}
+			}
+		}
+	case strings.HasPrefix(a.Op, "CALL:"):
+		call, _ = stripNot(a.Cond).(*ssa.Call)
+		success = !a.Neg
+	}
+	if call == nil {
+		return nil, false
+	}
+	g := calleeOf(call)
+	if g == nil || g.Blocks == nil || g.Pkg == nil || !isModulePath(g.Pkg.Pkg.Path()) || isMockPath(g.Pkg.Pkg.Path()) {
+		return nil, false
+	}
+	return call, success
+}
+
+// altExpansions: a condition moved into a helper that decides by a disjunction (`return use == "" || use == signing`)
+// has no fact common to all of its true returns - the intersection summary says nothing. The alternatives do: the
+// atom sets the given atoms stand for once every outcome of a module predicate / fallible helper among them is
+// replaced by one of the callee's paths with that outcome (parameters replaced by the arguments of the call). Each
+// returned set contains the given atoms; with nothing to expand (or more than max combinations) the result is the
+// given set alone.
+func (f *Facts) altExpansions(atoms []Atom, max int) [][]Atom {
+	out := [][]Atom{atoms}
+	for _, a := range atoms {
+		call, success := f.callOfAtom(a)
+		if call == nil {
+			continue
+		}
+		sm := f.summaryOf(calleeOf(call), 0)
+		if sm.ambiguous {
+			continue
+		}
+		alts := sm.succAlts
+		if !success {
+			alts = sm.failAlts
+		}
+		if len(alts) < 2 {
+			continue
+		}
+		if len(out)*len(alts) > max {
+			return [][]Atom{atoms}
+		}
+		args := call.Call.Args
+		var next [][]Atom
+		for _, base := range out {
+			for _, alt := range alts {
+				set := append([]Atom(nil), base...)
+				for _, fa := range alt {
+					na := fa
+					na.TA = substParams(fa.TA, sm.paramRoot, args, f, true)
+					na.TB = substParams(fa.TB, sm.paramRoot, args, f, true)
+					na.A = substParams(fa.TA, sm.paramRoot, args, f, false)
+					na.B = substParams(fa.TB, sm.paramRoot, args, f, false)
+					set = append(set, na)
+				}
+				next = append(next, set)
+			}
+		}
+		out = next
+	}
+	return out
 }
 
 func intersectAtoms(sets [][]Atom) []Atom {
@@ -1241,7 +1373,10 @@ func (f *Facts) expandAtomsDepth(atoms []Atom, depth int) []Atom {
 		case a.Op == "NIL":
 			x, _, ok := nilTest(a.Cond)
 			if !ok {
-				continue
+				if a.Val == nil {
+					continue
+				}
+				x = a.Val
 			}
 			switch y := x.(type) {
 			case *ssa.Call:
@@ -1351,6 +1486,12 @@ func substParams(t string, roots []string, args []ssa.Value, f *Facts, typed boo
 			p := f.path(args[i])
 			if typed {
 				p = f.T(p)
+			}
+			if strings.HasPrefix(p, "&") {
+				// the argument is the address of an object (`&list[i]`): a field read through the parameter is a field
+				// of that object
+				t = strings.ReplaceAll(t, r+".", p[1:]+".")
+				t = strings.ReplaceAll(t, "*"+r, p[1:])
 			}
 			t = strings.ReplaceAll(t, r, p)
 		}
